@@ -63,7 +63,9 @@ func Lint(stream io.Reader, lc LintConfig) error {
 	err := parser.ParseStreamCallback(stream, lc.ParserConfig, func(node *shared.ParserNode, err error) (stop bool, cbError error) {
 		if err != nil {
 			errorsFound++
-			fmt.Fprintln(lc.ReporterConfig.Output, err)
+			if _, werr := fmt.Fprintln(lc.ReporterConfig.Output, err); werr != nil {
+				return true, werr
+			}
 		}
 		return false, nil
 	})
@@ -71,7 +73,7 @@ func Lint(stream io.Reader, lc LintConfig) error {
 		return err
 	}
 	if !lc.Silent && errorsFound == 0 {
-		fmt.Fprintln(lc.ReporterConfig.Output, "No errors found")
+		_, err = fmt.Fprintln(lc.ReporterConfig.Output, "No errors found")
 	}
-	return nil
+	return err
 }
